@@ -1089,6 +1089,145 @@ def align_attrs(tree: ast.Module, mt: dict) -> dict:
     return mapping
 
 
+class _Fold(ast.NodeTransformer):
+    """the little constant folding that substituting a default value needs: x + 0, 0 + x, x - 0, x * 1, `None is None`, `not <const>`, <const> and/or e,
+    conditionals on a constant"""
+
+    @staticmethod
+    def _const(e):
+        return isinstance(e, ast.Constant)
+
+    def visit_BinOp(self, n):
+        self.generic_visit(n)
+        l, r = n.left, n.right
+        z = lambda e, v: isinstance(e, ast.Constant) and type(e.value) in (int, float) and e.value == v
+        if isinstance(n.op, ast.Add) and z(r, 0):
+            return l
+        if isinstance(n.op, ast.Add) and z(l, 0):
+            return r
+        if isinstance(n.op, ast.Sub) and z(r, 0):
+            return l
+        if isinstance(n.op, ast.Mult) and z(r, 1):
+            return l
+        if isinstance(n.op, ast.Mult) and z(l, 1):
+            return r
+        return n
+
+    def visit_Compare(self, n):
+        self.generic_visit(n)
+        if len(n.ops) == 1 and self._const(n.left) and self._const(n.comparators[0]) and isinstance(n.ops[0], (ast.Is, ast.IsNot)) \
+                and (n.left.value is None or n.comparators[0].value is None):
+            same = n.left.value is n.comparators[0].value
+            return ast.copy_location(ast.Constant(value=same if isinstance(n.ops[0], ast.Is) else not same), n)
+        return n
+
+    def visit_UnaryOp(self, n):
+        self.generic_visit(n)
+        if isinstance(n.op, ast.Not) and self._const(n.operand):
+            return ast.copy_location(ast.Constant(value=not n.operand.value), n)
+        return n
+
+    def visit_BoolOp(self, n):
+        self.generic_visit(n)
+        vals = []
+        for v in n.values:
+            if self._const(v):
+                t = bool(v.value)
+                if isinstance(n.op, ast.And) and t:
+                    continue            # True and e == e
+                if isinstance(n.op, ast.Or) and not t:
+                    continue            # False or e == e
+                vals.append(v)
+                break                   # short circuit: the rest is never evaluated
+            vals.append(v)
+        if not vals:
+            return ast.copy_location(ast.Constant(value=isinstance(n.op, ast.And)), n)
+        if len(vals) == 1:
+            return vals[0]
+        n.values = vals
+        return n
+
+    def visit_IfExp(self, n):
+        self.generic_visit(n)
+        if self._const(n.test):
+            return n.body if n.test.value else n.orelse
+        return n
+
+    def _block(self, body):
+        out = []
+        for st in body:
+            st = self.visit(st)
+            if isinstance(st, ast.If) and self._const(st.test):
+                out.extend(self._block(st.body if st.test.value else st.orelse))
+            elif st is not None:
+                out.append(st)
+        return out
+
+    def generic_visit(self, node):
+        node = super().generic_visit(node)
+        for f in ("body", "orelse", "finalbody"):
+            v = getattr(node, f, None)
+            if isinstance(v, list) and v and isinstance(v[0], ast.stmt):
+                nb = self._block(v)
+                setattr(node, f, nb or ([ast.Pass()] if f == "body" else []))
+        return node
+
+
+def default_fresh_params(fn, ref) -> Dict[str, ast.AST]:
+    """A parameter that the reference form of the function does not have and that has a constant default is a new option: for every call written against the
+    reference tree it has its default value.  Its reads are replaced by that value (followed by constant folding) and it is taken off the signature, so the
+    function is compared as the callers of the reference tree see it.  Returns {name: default}."""
+    import copy
+    a = fn.args
+    ref_params = set(ref.get("params") or [])
+    if not ref_params and not (ref.get("params") == []):
+        return {}
+    pos = a.posonlyargs + a.args
+    defaults = dict(zip([x.arg for x in pos][len(pos) - len(a.defaults):], a.defaults))
+    for x, d in zip(a.kwonlyargs, a.kw_defaults):
+        if d is not None:
+            defaults[x.arg] = d
+    simple = lambda d: isinstance(d, ast.Constant) or (isinstance(d, ast.UnaryOp) and isinstance(d.operand, ast.Constant)) or \
+        (isinstance(d, (ast.Tuple, ast.List)) and not d.elts)
+    fresh = {p: d for p, d in defaults.items() if p not in ref_params and simple(d)}
+    if not fresh:
+        return {}
+    stored = {x.id for x in ast.walk(fn) if isinstance(x, ast.Name) and isinstance(x.ctx, (ast.Store, ast.Del))}
+    fresh = {p: d for p, d in fresh.items() if p not in stored}
+    if not fresh:
+        return {}
+
+    class Sub(ast.NodeTransformer):
+        def visit_Name(self, n):
+            if isinstance(n.ctx, ast.Load) and n.id in fresh:
+                return ast.copy_location(copy.deepcopy(fresh[n.id]), n)
+            return n
+
+        def _scope(self, n):
+            if params_of(n) & set(fresh):
+                return n
+            return self.generic_visit(n)
+        visit_Lambda = _scope
+
+        def visit_FunctionDef(self, n):
+            if n is not fn and (params_of(n) & set(fresh)):
+                return n
+            return self.generic_visit(n)
+    fn.body = [Sub().visit(st) for st in fn.body]
+    # signature without the fresh parameters
+    keep = [x for x in pos if x.arg not in fresh]
+    nd = [defaults[x.arg] for x in keep if x.arg in defaults]
+    a.posonlyargs = [x for x in a.posonlyargs if x.arg not in fresh]
+    a.args = [x for x in a.args if x.arg not in fresh]
+    a.defaults = nd
+    kw = [(x, d) for x, d in zip(a.kwonlyargs, a.kw_defaults) if x.arg not in fresh]
+    a.kwonlyargs = [x for x, _ in kw]
+    a.kw_defaults = [d for _, d in kw]
+    _Fold().visit(fn)
+    ast.fix_missing_locations(fn)
+    return fresh
+
+
 def _simple_helper(fn):
     """(params, defaults, statements, return expression) of a helper whose body is straight-line: docstring / simple assignments to plain names / asserts, then one
     `return e`.  None for anything else (control flow, yields, nested definitions, *args)."""
@@ -1107,8 +1246,7 @@ def _simple_helper(fn):
         if not (isinstance(st, ast.Assign) and len(st.targets) == 1):
             return None
         t = st.targets[0]
-        names = t.elts if isinstance(t, (ast.Tuple, ast.List)) else [t]
-        if not all(isinstance(x, ast.Name) for x in names):
+        if not all(isinstance(x, (ast.Name, ast.Tuple, ast.List)) or isinstance(x, ast.expr_context) for x in ast.walk(t)):
             return None
     for x in ast.walk(fn):
         if isinstance(x, (ast.Yield, ast.YieldFrom, ast.Await, ast.Lambda, ast.Global, ast.Nonlocal)) or (isinstance(x, (ast.FunctionDef, ast.AsyncFunctionDef, ast.ClassDef)) and x is not fn):
@@ -1256,13 +1394,29 @@ def inline_fresh_helpers(tree: ast.Module, mt: dict) -> List[str]:
                     and len(st2.targets[0].elts) == len(st2.value.elts) and all(isinstance(t_, ast.Name) for t_ in st2.targets[0].elts):
                 # `a, b = (x, y)` element by element; `a = a` disappears
                 tail = []
+                ren = {}
                 for t_, v_ in zip(st2.targets[0].elts, st2.value.elts):
                     if isinstance(v_, ast.Name) and v_.id == t_.id:
                         continue
+                    if isinstance(v_, ast.Name) and v_.id in hlocals and t_.id not in hlocals and v_.id not in ren and t_.id not in ren.values():
+                        ren[v_.id] = t_.id      # the helper's local IS the caller's variable: one name for it
+                        continue
                     tail.append(ast.copy_location(ast.Assign(targets=[t_], value=v_), st2))
+                if ren:
+                    for h_ in new_stmts + tail:
+                        for x in ast.walk(h_):
+                            if isinstance(x, ast.Name) and x.id in ren:
+                                x.id = ren[x.id]
             elif isinstance(st2, ast.Assign) and len(st2.targets) == 1 and isinstance(st2.targets[0], ast.Name) and isinstance(st2.value, ast.Name) \
                     and st2.targets[0].id == st2.value.id:
                 tail = []
+            elif isinstance(st2, ast.Assign) and len(st2.targets) == 1 and isinstance(st2.targets[0], ast.Name) and isinstance(st2.value, ast.Name) \
+                    and st2.value.id in hlocals and st2.targets[0].id not in hlocals:
+                tail = []
+                for h_ in new_stmts:
+                    for x in ast.walk(h_):
+                        if isinstance(x, ast.Name) and x.id == st2.value.id:
+                            x.id = st2.targets[0].id
             for x in new_stmts:
                 for y in ast.walk(x):
                     if hasattr(y, "lineno"):
@@ -1302,12 +1456,20 @@ def normalize_module(tree: ast.Module, modname: str, table: Optional[dict] = Non
             hs = []
         if hs:
             stats["helpers"] = hs
+    fresh_defaults: Dict[str, set] = {}
+    todo_second = []
     for qn, fn in list(iter_functions(tree.body, "", {})):
         ref = mt.get(qn)
         if ref is None:
             continue
         if ref.get("digest") == digest(fn):
             continue        # unchanged since the reference tree: already in the rules' vocabulary
+        todo_second.append((qn, fn, ref))
+        fp = default_fresh_params(fn, ref)
+        if fp:
+            stats.setdefault("defaulted", {})[qn] = sorted(fp)
+            for k_, d_ in fp.items():
+                fresh_defaults.setdefault(k_, set()).add(ast.dump(d_))
         try:
             m = align(fn, ref)
         except RecursionError:
@@ -1330,6 +1492,21 @@ def normalize_module(tree: ast.Module, modname: str, table: Optional[dict] = Non
             if k:
                 ast.fix_missing_locations(fn)
                 stats.setdefault("respelled", {})[qn] = k
+    if fresh_defaults:
+        # a call that hands the default value of such a new option on to another function of the module says nothing: the keyword is dropped
+        touched = False
+        for n in ast.walk(tree):
+            if isinstance(n, ast.Call) and n.keywords:
+                kept = [k for k in n.keywords if not (k.arg in fresh_defaults and ast.dump(k.value) in fresh_defaults[k.arg])]
+                if len(kept) != len(n.keywords):
+                    n.keywords = kept
+                    touched = True
+        if touched:
+            from .spelling import spell_align
+            for qn, fn, ref in todo_second:
+                if ref.get("src") and ref.get("digest") != digest(fn):
+                    spell_align(fn, ref["src"])
+                    ast.fix_missing_locations(fn)
     return stats
 
 
